@@ -126,9 +126,9 @@ def check(run, replay):
         if b"\x00" in c[0] or b"\x00" in c[1]:
             continue
         raw = G_join(c)
-        rooted, dsep, under = classify_iter(raw)
-        if under and not rooted:
-            run.count("iter-vs-canon", None, bucket="unspecified(relative,'..' above start)")
+        # outside C31_iterator_reads_canon (canon_ok): not rooted and the first component is ".."
+        if not raw.startswith(b"/") and raw.split(b"/")[0] == b"..":
+            run.count("iter-vs-canon", None, bucket="unspecified(relative, begins with '..')")
             continue
         run.count("iter-vs-canon", None, nontrivial=(c[0], c[1]), bucket="agree" if i == s else "differ")
         if i != s:
@@ -180,27 +180,20 @@ def check(run, replay):
     for c, i, s in zip(pcases, impl, spec):
         run.count("pm-vs-spec", None, nontrivial=pm_nt(c, i, i), bucket="agree" if i == s else "differ")
     run.stream("pm-vs-spec")["disagreements"] += len(bad)
+    dom = model_eval("readscanon", [[c[0], c[1], c[2]] for c in pcases])
+    run.extra["pm_cases_in_theorem_domain"] = sum(1 for d in dom if d[3] == b"1")
+    run.extra["pm_cases_outside_theorem_domain"] = sum(1 for d in dom if d[3] != b"1")
     if bad:
         rcn = model_eval("readscanon", [[c[0], c[1], c[2]] for c, _, _ in bad])
         size = lambda d: (len(d[0][0]) + len(d[0][1]) + len(d[0][2]), d[0])
         classes = {}
         for (c, i, s), rc2 in zip(bad, rcn):
-            if rc2[2] == b"1":
-                # the pattern canonicalises to the empty string ("x/.."): the documentation does not say what it matches
-                run.count("pm-vs-spec", None, bucket="unspecified(empty canonical pattern)")
+            if rc2[3] != b"1":
+                # outside the domain of C31_pathmatch_total: relative string beginning with '..', or a plain
+                # pattern with empty canonical form ("x/..") - the documentation does not say what these mean
+                run.count("pm-vs-spec", None, bucket="differ,outside theorem domain (unspecified)")
                 continue
-            if rc2[:2] != [b"1", b"1"]:
-                # the iterator does not read the canonical form of the pattern or of the path
-                praw = G_join([c[2], c[0]]) if G_relpat(c[0]) else c[0]
-                traw = c[1] if c[1].startswith(b"/") else G_join([c[2], c[1]])
-                raw = praw if rc2[0] != b"1" else traw
-                rooted, dsep, under = classify_iter(raw)
-                if under and not rooted:
-                    run.count("pm-vs-spec", None, bucket="unspecified(relative,'..' above start)")
-                    continue
-                key = "pmcanon:%s:%s:%s" % (c[0].hex(), c[1].hex(), c[2].hex())
-            else:
-                key = "pmspec:%s:%s:%s:%s" % (c[0].hex(), c[1].hex(), c[2].hex(), c[3].decode())
+            key = ("pmcanon:%s:%s:%s" if rc2[:2] != [b"1", b"1"] else "pmspec:%s:%s:%s") % (c[0].hex(), c[1].hex(), c[2].hex()) + ":" + c[3].decode()
             classes.setdefault(key, []).append((c, i, s))
         # the smallest inputs first
         order = sorted(classes.items(), key=lambda kv: size(min(kv[1], key=size)))
